@@ -126,6 +126,27 @@ def c03_f1_argmax_nan_group(case, detail):
 
 
 PREDICATES["C03-F1"] = c03_f1_argmax_nan_group
+# ---- C18 ---------------------------------------------------------------------------------------------------------------
+
+
+def c18_f1_blockwise_rechunk_splits_run(case, detail):
+    # explicit method='blockwise' on 1-D labels whose chunking already keeps every group inside one block, with a MISSING label
+    # inside the run of a group: groupby_reduce rechunks anyway (the planner is not consulted for an explicit method),
+    # rechunk_for_blockwise treats the missing code -1 as a label of its own and cuts the run in two, and the duplicate-group
+    # guard then refuses the call
+    labs = case.get("labels") or []
+    if case.get("method") != "blockwise" or case.get("chunks") is None:
+        return False
+    if not (detail.startswith("every group lies within one block (method=blockwise) but the call raised ValueError")
+            and "requires that all members of a group lie within a single block" in detail):
+        return False
+    for i, l in enumerate(labs):
+        if l is None and any(a is not None and a in labs[i + 1:] for a in labs[:i]):
+            return True
+    return False
+
+
+PREDICATES["C18-F1"] = c18_f1_blockwise_rechunk_splits_run
 # ---- C15 (xarray_reduce vs native xarray groupby) ------------------------------------------------------
 # the harness attaches its classification of the call to the case: case["_cls"] = {gd, t, shortcut, needs_broadcast,
 # per: {var: {passthrough, lacks_some}}, unique_dim, anybin, nan_labels}
